@@ -25,7 +25,7 @@ open PdshVerif.Dsh PdshVerif.Dsh.Timed
 structure Acc where
   st : Option St := none
   dead : Bool := false
-  v : Fan.Variant := .whileWait
+  v : FanG.Variant := .whileWait
   f : Nat := 1
   cfg : Cfg := { ct := 0, ut := 0, sopt := false, selfCheck := false, stopWdog := false }
   scripts : List Script := []
@@ -46,7 +46,21 @@ def parseItem (t : String) : Option Item :=
 
 def parseItems (t : String) : Option (List Item) := (names t).mapM parseItem
 
-def parseFanLabel : List String → Option Fan.Label
+/-- `unlock` / `signal` / `broadcast` of a worker: the label is chosen by `pickObserved` (what the call DOES in the
+    state it is made in: an unlock before the wake-up call is `unlockFirst`, a wake-up call after the unlock is
+    `signalAfter`; signal and broadcast are the same transition, the dispatcher being the only waiter) -/
+def altLabel : FanG.Label → Option FanG.Label
+  | .w i .signal => some (.w i .signalAfter)
+  | .w i .unlock => some (.w i .unlockFirst)
+  | _ => none
+
+def pickObserved (f : FanG.St) (l : FanG.Label) : FanG.Label :=
+  if (FanG.step f l).isSome then l
+  else match altLabel l with
+    | some l' => if (FanG.step f l').isSome then l' else l
+    | none => l
+
+def parseFanLabel : List String → Option FanG.Label
   | ["D", "lock"] => some (.d .lock)
   | ["D", "wait"] => some (.d .wait)
   | ["D", "wake", "0"] => some (.d (.wake false))
@@ -66,7 +80,7 @@ def parseFanLabel : List String → Option Fan.Label
         | "destroyBegin" => some (.w i .destroyBegin)
         | "destroyEnd" => some (.w i .destroyEnd)
         | "lock" => some (.w i .lock)
-        | "signal" => some (.w i .signal)
+        | "signal" | "broadcast" => some (.w i .signal)
         | "unlock" => some (.w i .unlock)
         | _ => none
     else none
@@ -122,7 +136,7 @@ def parseEv (s : St) : List String → Except String Label
     else .error "bad thread"
   | ws =>
     match parseFanLabel ws with
-    | some l => .ok (.fan l)
+    | some l => .ok (.fan (pickObserved s.fan l))
     | none => .error ("unknown event " ++ " ".intercalate ws)
 
 def parseOptNat (t : String) : Option (Option Nat) := if t = "-" then some none else t.toNat?.map some
